@@ -7,7 +7,7 @@ META = dict(
         guard="verif",
         enable="go build/test -tags verif (the driver ./check copies /repo's working tree, grafts /verif/harness in as internal/verifh and builds with -tags verif)",
         baseline_off_cmd="/verif/tools/baseline.py",
-        source_commits=['ee30edd', '14773b2', '3eaecf4'],
+        source_commits=['ee30edd', '14773b2', '3eaecf4', '5ba1df9'],
         add_only=True,
     ),
     engines=[
@@ -19,7 +19,7 @@ META = dict(
              kind_free_text="child process executes a generated workload and SIGKILLs itself at the n-th persistent mutation (hook); parent enumerates n and judges the recovered state"),
         dict(name="faults", path="harness/seq/faults.go", serves_properties=["C10"],
              kind_free_text="fault injection by generated plan: failing/cancelling source readers, ENOSPC (full/partial) at File.Write via hook, per-root free space, failing gRPC stream"),
-        dict(name="detsched", path="harness/detsync (scheduler), tools/rewrite (source rewriter), harness/det (programs, linearizability oracle)", serves_properties=["C06", "C07", "C08", "C12", "C16"],
+        dict(name="detsched", path="harness/detsync (scheduler), tools/rewrite (source rewriter), harness/det (programs, linearizability oracle)", serves_properties=["C05", "C06", "C07", "C08", "C12", "C16"],
              kind_free_text="schedule-owning engine: fs_db's sync/atomic/go/select/time.After are redirected to a cooperative scheduler; the schedule (forced preemptions or a random-walk tape) is part of the generated case; small-scope exhaustive enumeration + rapid generation"),
         dict(name="race", path="harness/seq/race.go", serves_properties=["C15"],
              kind_free_text="generated concurrent client programs in a child process of a -race build; the Go race detector is the oracle"),
